@@ -731,8 +731,24 @@ func (P *Prover) prove(goal Poly, blk *ssa.BasicBlock, extra []Poly, hyps []hyp,
 	if c, ok := goal.isConst(); ok {
 		// constant positive goal: provable only from contradictory facts
 		for _, f := range facts {
-			if P.elim(f.scale(-1).add(constP(1), 1), facts, P.DElim) {
+			if _, isNeq := f["!="]; isNeq {
+				continue
+			}
+			neg := f.scale(-1).add(constP(1), 1) // f >= 1 contradicts f <= 0
+			if P.elim(neg, facts, P.DElim) {
 				return true
+			}
+		}
+		// phi-induction on the negation of each dominating condition (e.g. a loop test that can never hold)
+		if depth >= 2 {
+			for _, f := range dom {
+				if _, isNeq := f["!="]; isNeq {
+					continue
+				}
+				neg := f.scale(-1).add(constP(1), 1)
+				if len(P.phisIn(neg)) > 0 && P.phiStep(neg, blk, hyps, depth) {
+					return true
+				}
 			}
 		}
 		_ = c
